@@ -474,3 +474,33 @@ def no_groups_file():
                    ("quiesce",), ("eof", 1), ("eof", 0), ("quiesce",)]
             out.append(Scenario(st, users=users, groups=[], name="no-groups-file-%s-%s" % (who, tr)))
     return out
+
+
+def orphan_routes():
+    """a routed request is still in flight when its element is removed (the owner may own nothing else any more); then the
+    caller leaves, and afterwards the owner answers / the deadline passes / the owner leaves: the entry must have gone with the caller"""
+    out = []
+    for kind in ("state", "method"):
+        for keep_other in (False, True):
+            for ending in ("reply", "timeout", "owner-leaves", "term"):
+                for tr in ("raw", "ws"):
+                    st = [("connect", 0, "raw", "local6"), ("connect", 1, tr, "remote6"), ("connect", 2, "raw", "remote6"),
+                          ("msg", 0, obj(method="add", params=(obj(path="e", value=1) if kind == "state" else obj(path="e")), id=1))]
+                    if keep_other:
+                        st.append(("msg", 0, obj(method="add", params=obj(path="other", value=0), id=2)))
+                    req = obj(method="set", params=obj(path="e", value=2), id="r1") if kind == "state" else obj(method="call", params=obj(path="e", args=[1]), id="r1")
+                    st += [("msg", 1, req),
+                           ("msg", 2, obj(method=("set" if kind == "state" else "call"), params=(obj(path="e", value=3) if kind == "state" else obj(path="e")), id="r2")),
+                           ("msg", 0, obj(method="remove", params=obj(path="e"), id=3)),
+                           ("quiesce",), ("eof", 1), ("quiesce",)]
+                    if ending == "reply":
+                        st += [("reply", 0, 0, "result", True), ("reply", 0, 1, "result", True)]
+                    elif ending == "timeout":
+                        st += [("advance", 6 * 10 ** 9)]
+                    elif ending == "owner-leaves":
+                        st += [("eof", 0)]
+                    if ending != "term":
+                        st += [("quiesce",), ("connect", 3, "raw", "local6"), ("msg", 3, obj(method="info", id="alive")),
+                               ("eof", 2), ("eof", 0) if ending != "owner-leaves" else ("quiesce",), ("eof", 3), ("quiesce",)]
+                    out.append(Scenario(st, name="orphan-routes-%s-%s-%s-%s" % (kind, "other" if keep_other else "last", ending, tr)))
+    return out
